@@ -19,24 +19,30 @@ def _has_quantifier(vc):
 
 def _solve(i, rlimit=None):
     vc = _VCS[i]; t0 = time.time()
-    # attempt 1: E-matching only (no model-based quantifier instantiation): decides almost every valid VC in
-    # milliseconds; an 'unsat' under any configuration is a proof.  attempt 2: z3's default configuration, which can
-    # also produce counter-models.
+    # configuration 0: sliced hypotheses, E-matching only; 1: all hypotheses, E-matching only (no model-based quantifier
+    # instantiation): decides almost every valid VC in milliseconds; 2: z3's default configuration, which can also produce
+    # counter-models.  An 'unsat' under any configuration / seed is a proof.
+    # E-matching proofs either come within seconds or not at all (they depend on the instantiation order), so the full pass
+    # tries several short runs with different random seeds before the long ones (restart strategy).
     r = None
     quant = vc.quant
-    attempts = (1, 2) if quant and vc.expect != 'sat' else (2,)
-    if vc.drop and quant and vc.expect != 'sat': attempts = (0,) + attempts
-    for attempt in attempts:
+    if not (quant and vc.expect != 'sat'):
+        plan = [(2, 0, COVER_TIMEOUT_MS if vc.expect == 'sat' else (MBQI_TIMEOUT_MS if quant else TIMEOUT_MS))]
+    elif rlimit:      # fast pass: bounded by the resource limit
+        plan = ([(0, 0, TIMEOUT_MS)] if vc.drop else []) + [(1, 0, TIMEOUT_MS), (2, 0, MBQI_TIMEOUT_MS)]
+    else:
+        plan = ([(0, 0, 15000)] if vc.drop else []) + [(1, 0, 20000)] + ([(0, 11, 15000)] if vc.drop else []) + [(1, 11, 20000), (1, 5, TIMEOUT_MS), (2, 0, MBQI_TIMEOUT_MS)]
+    for attempt, seed, tmo in plan:
         s = z3.Solver()
         hyps = vc.hyps
-        if attempt == 0:      # sliced hypotheses, E-matching only
+        if attempt == 0:
             dr = set(vc.drop); hyps = [h for i, h in enumerate(vc.hyps) if i not in dr]
-            s.set('auto_config', False); s.set('mbqi', False); s.set('rlimit', min(rlimit, EMATCH_RLIMIT) if rlimit else RLIMIT)
-        elif attempt == 1:
+        if attempt in (0, 1):
             s.set('auto_config', False); s.set('mbqi', False); s.set('rlimit', min(rlimit, EMATCH_RLIMIT) if rlimit else RLIMIT)
         else:
             s.set('rlimit', rlimit or RLIMIT)
-        s.set('timeout', COVER_TIMEOUT_MS if vc.expect == 'sat' else (TIMEOUT_MS if attempt == 1 or not quant else MBQI_TIMEOUT_MS))
+        if seed: s.set('random_seed', seed)
+        s.set('timeout', tmo)
         # normalise arithmetic sub-terms (R - k - 1 vs R + -1*k - 1) so that equal index expressions are syntactically equal
         for h in hyps: s.add(z3.simplify(h, som=True))
         s.add(z3.simplify(z3.Not(vc.goal), som=True))
